@@ -155,6 +155,90 @@ def hand_const(x: fp.Real, y: fp.Real, xs: list[fp.Real], k: fp.Real):
 }
 
 
+TRACE_HAND = {
+    'hand_for_shadow': '''@fp.fpy
+def hand_for_shadow(x: fp.Real, y: fp.Real, xs: list[fp.Real], k: fp.Real):
+    a = 0
+    for a in xs:
+        pass
+    b = a + 1
+    return a, b''',
+    'hand_nested_while': '''@fp.fpy(ctx=fp.FP64)
+def hand_nested_while(x: fp.Real, y: fp.Real, xs: list[fp.Real], k: fp.Real):
+    i = 0
+    t = 0
+    while i < k:
+        j = i
+        while j < 1 and t < 3:
+            j = j * 1
+            t = t + 1
+        i = i + 1
+    return t''',
+    'hand_alias_const': '''@fp.fpy(ctx=fp.FP64)
+def hand_alias_const(x: fp.Real, y: fp.Real, xs: list[fp.Real], k: fp.Real):
+    us = [1, 2, 3]
+    vs = us
+    vs[0] = 5
+    w = us[0]
+    return us[0]''',
+    'hand_isnormal': '''@fp.fpy
+def hand_isnormal(x: fp.Real, y: fp.Real, xs: list[fp.Real], k: fp.Real):
+    if fp.isnormal(x):
+        a = x
+    else:
+        a = x
+    b = 1
+    if not fp.isnormal(y):
+        b = y
+    with fp.REAL:
+        c = 1
+        if fp.isnormal(y):
+            c = abs(y)
+        else:
+            c = -y
+    return a, b, c''',
+    'hand_class_tests': '''@fp.fpy
+def hand_class_tests(x: fp.Real, y: fp.Real, xs: list[fp.Real], k: fp.Real):
+    a = 1
+    if fp.isfinite(x):
+        a = x
+    else:
+        a = x
+    b = 1
+    if fp.isinf(y):
+        b = y
+    else:
+        b = y
+    c = 1
+    if fp.isnan(x):
+        c = x
+    else:
+        c = x
+    d = 1
+    if x == 0:
+        d = x
+    else:
+        d = x
+    e = 1
+    if y != y:
+        e = y
+    if x < 0:
+        e = x
+    with fp.REAL:
+        f = 1
+        if fp.isfinite(y) and not x == 0:
+            f = y * x
+    return a, b, c, d, e, f''',
+    'hand_with_dynamic_const': '''@fp.fpy(ctx=fp.FP64)
+def hand_with_dynamic_const(x: fp.Real, y: fp.Real, xs: list[fp.Real], k: fp.Real):
+    with fp.IEEEContext(5, k + 9):
+        t = 1 / 3
+    with fp.MPFloatContext(k + 2):
+        u = 1 / 3
+    return t, u''',
+}
+
+
 def ty_json(t):
     if isinstance(t, RealType):
         return {'t': 'real'}
@@ -306,6 +390,9 @@ def annotate(prog, pe, fn, stats):
     return nfacts
 
 
+LIBCHUNKS = 4
+
+
 def record_programs(job):
     seed, tier, k = job
     rng = random.Random(seed * 733 + k)
@@ -318,11 +405,20 @@ def record_programs(job):
             for n, e in rej.items():
                 stats[f'hand-rejected:{n}:{e[:80]}'] += 1
             progs += [(n, f, HAND[n]) for n, f in hf.items()]
-        nprog = 8 if tier == 'quick' else 50
-        prof = PROFILES[k % len(PROFILES)]
-        srcs, funcs, rej = progrun.generate_and_load(seed * 37 + k, nprog, prof, work, f'c13_{k}_')
-        stats['rejected_by_front_end'] += len(rej)
-        progs += [(n, f, srcs[n]) for n, f in funcs.items()]
+        vecfn = {}
+        if k >= 100:
+            # the repository's own libraries (chunk k - 100 of LIBCHUNKS), with input vectors that follow the annotations
+            from .. import libprogs
+            for i, (n, f) in enumerate(libprogs.library_functions()):
+                if i % LIBCHUNKS == k - 100 and (tier != 'quick' or (i // LIBCHUNKS + seed) % 3 == 0):
+                    progs.append(('lib_' + n, f, f'# fpy2.libraries.{n}\n' + f.format()))
+                    vecfn['lib_' + n] = (lambda r, m, f=f: libprogs.typed_vectors(f, r, m))
+        else:
+            nprog = 8 if tier == 'quick' else 50
+            prof = PROFILES[k % len(PROFILES)]
+            srcs, funcs, rej = progrun.generate_and_load(seed * 37 + k, nprog, prof, work, f'c13_{k}_')
+            stats['rejected_by_front_end'] += len(rej)
+            progs += [(n, f, srcs[n]) for n, f in funcs.items()]
         for (name, f, src) in progs:
             try:
                 prog, pe = export_program(f, 0)
@@ -342,7 +438,7 @@ def record_programs(job):
                 stats[f'analysis-refused:{str(msg).split(":")[0]}'] += 1
                 continue
             ins = []
-            for args, ctx in progrun.input_vectors(rng, 20 if tier == 'quick' else 48):
+            for args, ctx in vecfn.get(name, progrun.input_vectors)(rng, 20 if tier == 'quick' else 48):
                 # a constructor argument of 2**53 + 1 makes GNU MP abort the whole process: keep wide integers out of this check
                 args = [(7 if a == 2 ** 53 + 1 else a) if not isinstance(a, list) else [(7 if e == 2 ** 53 + 1 else e) for e in a] for a in args]
                 try:
@@ -363,6 +459,68 @@ def record_programs(job):
     return out, stats
 
 
+SUBNORMALS = [5e-324, 2.2250738585072009e-308, -5e-324, 1e-310]
+
+
+def record_traces(job):
+    """Statement-level traces of the REAL interpreter (harness/linetrace.py) for hand-written, generated and library programs -- also
+    those the abstract machine cannot run (calls, isnormal, binary64 arithmetic, wide values)."""
+    from .. import libprogs, linetrace
+    from ..equiv import apply_transform
+    seed, tier, k = job
+    rng = random.Random(seed * 911 + k)
+    work = tempfile.mkdtemp(prefix='verif-c13t-')
+    progs, runs, stats = [], [], Counter()
+    try:
+        cand = []
+        if k == 0:
+            allhand = dict(HAND)
+            allhand.update(TRACE_HAND)
+            hf, rej = gen_prog.load_programs(allhand, work, 'c13thand')
+            for n, e in rej.items():
+                stats[f'hand-rejected:{n}:{e[:80]}'] += 1
+            cand += [(n, f, allhand[n], progrun.input_vectors) for n, f in hf.items()]
+        if k >= 100:
+            for i, (n, f) in enumerate(libprogs.library_functions()):
+                if i % LIBCHUNKS == k - 100:
+                    cand.append(('lib_' + n, f, f'# fpy2.libraries.{n}\n' + f.format(), (lambda r, m, f=f: libprogs.typed_vectors(f, r, m))))
+        else:
+            nprog = 8 if tier == 'quick' else 40
+            prof = dict(PROFILES[k % len(PROFILES)])
+            if k % 2:
+                prof['calls'] = 0.15
+            srcs, funcs, rej = progrun.generate_and_load(seed * 41 + k, nprog, prof, work, f'c13t_{k}_')
+            stats['rejected_by_front_end'] += len(rej)
+            cand += [(n, f, srcs[n], progrun.input_vectors) for n, f in funcs.items()]
+        for (name, f, src, vecfn) in cand:
+            st, si = apply_transform(lambda: linetrace.static_info(f), limit=30)
+            if st == 'timeout':
+                stats['analysis-timeout'] += 1
+                progs.append({'timeout': True, 'src': src, 'name': name})
+                continue
+            if st != 'ok':
+                stats[f'not-traced:{str(si).split(":")[0]}'] += 1
+                continue
+            si['src'] = src
+            kl = set(si['lines'])
+            nrun = 0
+            for j, (args, ctx) in enumerate(vecfn(rng, 12 if tier == 'quick' else 30)):
+                args = [(7 if a == 2 ** 53 + 1 else a) if not isinstance(a, list) else [(7 if e == 2 ** 53 + 1 else e) for e in a] for a in args]
+                if j % 5 == 4 and not name.startswith('lib_'):
+                    args[j % 2] = rng.choice(SUBNORMALS)
+                r = linetrace.record_run(f, args, ctx, known_lines=kl)
+                if r is None:
+                    stats['run-too-long'] += 1
+                    continue
+                runs.append({'prog': len(progs), 'ev': r['ev'], 'ret': r['ret'], 'exc': r['exc'], 'args': repr(args)[:300], 'ctx': str(ctx)[:80]})
+                nrun += 1
+            stats['facts_attached_traced'] += si['nfacts']
+            progs.append(si)
+    finally:
+        shutil.rmtree(work, ignore_errors=True)
+    return progs, runs, stats
+
+
 FACT_CLAUSES = ('read-observes-a-definition-not-listed-as-reaching', 'value-does-not-have-the-inferred-type',
                 'list-does-not-have-the-inferred-length', 'lists-reported-equal-length-differ', 'value-outside-the-reported-classes',
                 'expression-reported-constant-evaluates-differently', 'same-list-not-reported-as-aliased')
@@ -371,7 +529,7 @@ FACT_CLAUSES = ('read-observes-a-definition-not-listed-as-reaching', 'value-does
 def run(tier: str) -> int:
     rep = core.Report('C13', tier)
     stats = Counter()
-    jobs = [(core.seed(), tier, k) for k in range(4 if tier == 'quick' else 12)]
+    jobs = [(core.seed(), tier, k) for k in range(4 if tier == 'quick' else 12)] + [(core.seed(), tier, 100 + c) for c in range(LIBCHUNKS)]
     res = core.pool_map(record_programs, jobs, chunksize=1)
     progs = []
     for ps, st in res:
@@ -397,11 +555,36 @@ def run(tier: str) -> int:
             continue
         rep.mismatch({'clause': clause}, {'program': p['src'], 'input': p['inputs'][idx - 1], 'clause': clause, 'where': what,
                                           'alias': p.get('alias')})
+    # --- statement-level traces of the real interpreter against the same facts (spec/StmtTrace.tla)
+    from .. import linetrace
+    tjobs = [(core.seed(), tier, k) for k in range(3 if tier == 'quick' else 9)] + [(core.seed(), tier, 100 + c) for c in range(LIBCHUNKS)]
+    tprogs, truns, tstats = [], [], Counter()
+    for ps, rs, st in core.pool_map(record_traces, tjobs, chunksize=1):
+        base = len(tprogs)
+        tstats.update(st)
+        for p in ps:
+            if p.get('timeout'):
+                rep.mismatch({'clause': 'analysis-does-not-terminate'}, {'program': p['src'], 'clause': 'an analysis ran for more than 30 s'})
+        tprogs += ps
+        for r_ in rs:
+            r_['pid'] = base + r_.pop('prog') + 1
+            r_['tid'] = len(truns)
+            truns.append(r_)
+    if truns:
+        tout = linetrace.validate([{k: r_[k] for k in ('tid', 'pid', 'ev', 'ret', 'exc')} for r_ in truns], tprogs)
+        rep.add_tlc(tout.generated, tout.distinct)
+        for (tid, clause, what) in tout.mismatches:
+            r_ = truns[tid]
+            p = tprogs[r_['pid'] - 1]
+            rep.mismatch({'clause': clause}, {'program': p['src'], 'args': r_['args'], 'ctx': r_['ctx'], 'clause': clause, 'where': what,
+                                              'observed_by': 'statement trace of the real interpreter (sys.settrace)', 'alias': p.get('alias')})
     runs = sum(len(p['inputs']) for p in progs)
     skipc = Counter(s[3] for s in skips)
     rep.cov.update({'programs': len(progs), 'evaluations': runs, 'traces_validated_against_impl': runs - sum(skipc.values()),
                     'distinct_nontrivial': len(progs), 'facts_attached': stats.get('facts_attached', 0),
                     'skipped_by_reason': dict(skipc), 'not_run': {k: v for k, v in stats.items() if k != 'facts_attached'},
+                    'statement_traces': len(truns), 'statement_trace_events': sum(len(r_['ev']) for r_ in truns),
+                    'statement_trace_programs': sum(1 for p in tprogs if 'lines' in p), 'statement_trace_stats': dict(tstats),
                     'rule': 'hand + generated programs (no user calls) x 20 (quick) / 48 (thorough) argument vectors x caller contexts; facts of '
                             'six analyses attached to every assignment / statement of the main function and checked on every machine step'})
     for p in progs[:2]:
